@@ -329,7 +329,7 @@ SPLIT = {"obj_int": ["obj_int#01", "obj_int#2"], "arr_scalar": ["arr_scalar#01",
 
 
 def gen_conditions(module, factory, tier, seed, groups=("T1", "T2", "T3", "T4"), rate=None, rest=True, only=None, witness_rate=0.15,
-                   extra_params=None, tags_from_template=True, timeout_scale=1.0, pairs_quick=30, heavy_all_drafts=False, heavy_L=2):
+                   extra_params=None, tags_from_template=True, timeout_scale=1.0, pairs_quick=30, heavy_all_drafts=False, heavy_L=2, heavy_quick=True):
     """Standard cube-and-conquer enumeration of the template table for one property.
     rate: per-group sampling probability in the quick tier (seeded)."""
     import random
@@ -367,7 +367,7 @@ def gen_conditions(module, factory, tier, seed, groups=("T1", "T2", "T3", "T4"),
             elif t.group == "T2":
                 for k in t.kinds:
                     for kk in SPLIT.get(k, [k]):
-                        if quick and kk.endswith("#2") and d != heavy_draft and not heavy_all_drafts:
+                        if quick and kk.endswith("#2") and (not heavy_quick or (d != heavy_draft and not heavy_all_drafts)):
                             continue
                         if quick and kk.endswith("#2") and heavy_L != 2:
                             cond(t, d, kk, L=heavy_L, timeout=900)
